@@ -36,6 +36,7 @@ META = {
         "raised, cancelled by timeout) before the ack; when_saved/default: the save attempt has ended (stored or "
         "failed) or, for a no-result outcome, the function and all post_execute hooks have ended. When processing "
         "of an ackable message finishes, #ack calls == 1. distinct_nontrivial = distinct terminal per-message logs."
+        " Fault-overlap family (mc/fault_overlap.py): message X suffers one fault out of {pre_execute/post_execute/post_save/on_error hook, sync or async ack, result backend} x {RuntimeError, CancelledError, TimeoutError}, backend failing once, body raise/CancelledError/timeout/no-result, malformed/unknown message, broker stream error, while the healthy message Y has suspension points before, inside and after its function and the stop request may arrive at any point; for all three acknowledge types; Y, and X for the outcomes the property quantifies over, is acknowledged exactly once and never early; an X outside them (raising hook, CancelledError from the backend, junk) may end un-acknowledged but never with an early or second ack; also with wait_tasks_timeout elapsing while Y (async / sync) is inside its function."
     ),
     "assumptions": [
         "asyncio semantics as implemented by BaseEventLoop (only clock/selector replaced)",
@@ -86,7 +87,7 @@ class C02World(RecvWorld):
             m = self.msgs[i]
             if m["ack"] is not None and m["kind"] == "valid":
                 kinds = [e[0] for e in self.per[i]]
-                if kinds.count("ACK_B") != 1 and not self.muted and self._finished_normally(i, kinds):
+                if kinds.count("ACK_B") != 1 and not self.muted and self._finished_normally(i, kinds) and not (self.relaxed(i) and kinds.count("ACK_B") == 0):
                     self.flag("C02:missing-ack", f"processing of message {i} finished with {kinds.count('ACK_B')} acks: {self.per[i]}")
 
     def _ended_without_body(self, i: int, kinds: List[str]) -> bool:
@@ -112,6 +113,32 @@ def _msg(name: str, ack: str, gated: bool) -> Dict[str, Any]:
     return m
 
 
+def fault_family(tier: str) -> List[Dict[str, Any]]:
+    """One fault in message X while message Y is in flight, stop request at any point (mc/fault_overlap.py).
+    Y - and X for the outcomes the property quantifies over - must be acknowledged exactly once and not
+    early; an X whose hook raises, whose backend raises CancelledError or that is junk may end without an
+    ack (outside the quantified outcomes) but never with an early or second one."""
+    from mc import fault_overlap as fo
+
+    out = []
+    ats = ACK_TYPES[:3]
+    for sc in fo.family(tier, ack_types=ats, a=3):
+        k, d = sc["fault"]
+        sc["relax_x"] = k in ("hook", "junk") or (k == "save" and d == "cancel")
+        out.append(sc)
+    # the drain gives up after wait_tasks_timeout while Y (async / sync on the executor) is inside its function
+    for at in ats:
+        for y in (None, {"flavour": "sync"}):
+            for f in (("body", "raise"), ("save", "raise")):
+                out.append(fo.scenario(f, ack_type=at, y=y, a=3, w=0.3))
+    if tier == "thorough":
+        for sc in fo.family(tier, ack_types=ats, a=2, orders=(False,), ys=({"flavour": "sync"},)):
+            k, d = sc["fault"]
+            sc["relax_x"] = k in ("hook", "junk") or (k == "save" and d == "cancel")
+            out.append(sc)
+    return out
+
+
 def scenarios(tier: str) -> List[Dict[str, Any]]:
     out: List[Dict[str, Any]] = []
     names = list(OUTCOMES)
@@ -132,6 +159,7 @@ def scenarios(tier: str) -> List[Dict[str, Any]]:
                 sc = _sc(at, [_msg(nm, "sync", False), _msg("return", "async", True), _msg("return", "sync", False)], 0, False, a=2)
                 sc.update({"stream": "infinite", "stop": False, "N": n_, "P": 1})
                 out.append(sc)
+    out += fault_family(tier)
     if tier == "thorough":
         for at in ACK_TYPES[:3]:
             for n1, n2 in itertools.product(names[:4], repeat=2):
